@@ -31,7 +31,8 @@ def judge (kv : KV) : Verdict :=
     | none => if kv.get "crash" == "1" then [] else ["model traps"]
   -- reference: what the window must show
   let cps := Spec.decodeStr s.length s
-  let sf : List String := match refRow cps left (left + cols), m with
+  let ltr := Dir.dirContext Vi.dirOracle o.xtd s ≥ 0
+  let sf : List String := match (if ltr then refRow cps left (left + cols) else none), m with
     | some cells, some _ =>
       -- decode the implementation's text into cells: one entry per character emitted, blanks for tabs / newline
       let outB := hexBytes impl
@@ -49,9 +50,13 @@ def judge (kv : KV) : Verdict :=
             let span := ((List.range (cells.length - k)).takeWhile (fun d => cells.getD (k + d) none == some i)).length
             if c == 9 || c == 10 then build f (k + span) (acc ++ List.replicate span 32)
             else build f (k + span) (acc ++ [c])
-      let want := build (cells.length + 2) 0 []
-      if want == outC then [] else [s!"clause=row_shows_window_of_line left={left} cols={cols} want={bytesHex (Spec.encStr want)} got={impl}"]
+      let want := if cells.all (·.isNone) then [] else build (cells.length + 2) 0 []
+      -- the row is followed by "erase to end of line": trailing blanks do not change what is shown
+      let strip (l : List Nat) : List Nat := (l.reverse.dropWhile (· == 32)).reverse
+      if strip want == strip outC then [] else [s!"clause=row_shows_window_of_line left={left} cols={cols} want={bytesHex (Spec.encStr want)} got={impl}"]
     | _, _ => []
-  { diffs := d, specfails := sf, nontrivial := s.length > 1 && left + cols > 0 }
+  let judged := ltr && (refRow cps left (left + cols)).isSome && m.isSome
+  { diffs := d, specfails := sf, nontrivial := s.length > 1 && left + cols > 0,
+    tags := (if judged then ["window_reference_applied"] else []) ++ (if !ltr then ["rtl_context"] else []) }
 
 end Neatvi.Drive.LedD
